@@ -77,6 +77,11 @@ impl J {
             (J::Str(a), J::Str(b)) => a == b,
             (J::Arr(a), J::Arr(b)) => a.len() == b.len() && a.iter().zip(b).all(|(x, y)| x.sem_eq(y)),
             (J::Obj(a), J::Obj(b)) => {
+                // repeated member names (a parsed, never-mutated object): order matters, compare in sequence
+                let dup = |m: &Vec<(String, J)>| m.iter().enumerate().any(|(i, (k, _))| m.iter().position(|(kk, _)| kk == k) != Some(i));
+                if dup(a) && dup(b) {
+                    return a.len() == b.len() && a.iter().zip(b).all(|((k, v), (kk, w))| k == kk && v.sem_eq(w));
+                }
                 a.len() == b.len()
                     && a.iter().all(|(k, v)| {
                         let mut it = b.iter().filter(|(kk, _)| kk == k);
